@@ -57,7 +57,10 @@ LEVEL_NOTE = ("Trusted: Lean kernel + propext/Quot.sound/Classical.choice; tools
               "decided by the model on every generated message (answer field wf, theorems message_ok_decides / "
               "balanced_decides) and compared with true; the specification of the SGR codes (expectedCodes, hypothesis "
               "of sgr_exact) is answered by the model for every style of the table (field spec, theorem "
-              "spec_codes_decides) and compared with the oracle's own code table.")
+              "spec_codes_decides) and compared with the oracle's own code table; the hypothesis of style_set_emptied "
+              "(every default style carries a tag that was removed) is decided on the remove calls of every style-set "
+              "case (field emptied, theorem empties_decides) and compared with whether the real StyleSet object holds "
+              "no style after them.")
 LEAN_MODULES = ["Clikit.Props.C11"]
 REQUIRED_THEOREMS = ["Clikit.Props.C11." + n for n in (
     "sgr_exact", "strip_eq_plain", "balanced_text", "plain_no_escape", "line_methods_newline",
@@ -67,7 +70,10 @@ REQUIRED_THEOREMS = ["Clikit.Props.C11." + n for n in (
     # indentation scopes over several sections (Model/SectionScopes.lean on the section model of C15)
     "section_scopes_lexical", "section_redraw_keeps_indent",
     # formatters built from a given style set (Model/StyleSets.lean)
-    "formatter_registry_none", "formatter_registry_empty", "style_set_emptied", "empty_set_default_tags_are_text")]
+    "formatter_registry_none", "formatter_registry_empty", "style_set_emptied", "empty_set_default_tags_are_text",
+    # hypothesis audit, round 10: the hypothesis of style_set_emptied decided on every style-set case (answer field
+    # `emptied`, compared with whether the real StyleSet holds no style after the removals)
+    "empties_decides", "style_set_emptied_iff", "style_set_emptied_decided")]
 RULE = ("msg: random ASTs (depth <= 4) over named styles of the default style set (any case), inline "
         "fg/bg/options specs, unknown tags, text over ASCII, '<' '>' '/', newline, non-ASCII incl. the four "
         "non-ASCII letters Python's case-insensitive [a-z] admits; non-trivial = at least one style node, distinct "
@@ -850,12 +856,15 @@ def _fmt_depth(f):
     return len(f._formatter._style_stack.styles)
 
 
-def _build_sset(sset):
+def _build_sset(sset, seen=None):
     from clikit.api.formatter import StyleSet
     from clikit.formatter import DefaultStyleSet
     ss = StyleSet() if sset["base"] == "empty" else DefaultStyleSet()
     for t in sset["remove"]:
         ss.remove(t)
+    if seen is not None:
+        # the hypothesis of Props.C11.style_set_emptied read off the real object: no style is left after the removals
+        seen.append(len(ss.styles) == 0)
     for a in sset["add"]:
         ss.add(_style_obj(a, a["tag"]))
     return ss
@@ -866,10 +875,11 @@ def _run_msg(case):
     raw = raw_of(case["ast"])
     pre = "".join("<%s>" % t for t in case["pre"])
     style = _style_obj(case["style"], case["style"].get("tag")) if case["style"] is not None else None
+    emptied = []
     try:
         if case.get("sset") is not None:
             # both formatters are built from the style set the case describes: one StyleSet object for both, or one each
-            ss = _build_sset(case["sset"])
+            ss = _build_sset(case["sset"], emptied)
             af = AnsiFormatter(ss, forced=True)
             pf = PlainFormatter(ss if case.get("shared") else _build_sset(case["sset"]))
         else:
@@ -885,9 +895,12 @@ def _run_msg(case):
             out = call()
             return {"out": out, "depth": _fmt_depth(f)}
         return _guard(go)
-    return {"ansi": one(af, lambda: af.format(raw, style)),
-            "removed": one(af, lambda: af.remove_format(raw)),
-            "plain": one(pf, lambda: pf.format(raw))}
+    res = {"ansi": one(af, lambda: af.format(raw, style)),
+           "removed": one(af, lambda: af.remove_format(raw)),
+           "plain": one(pf, lambda: pf.format(raw))}
+    if emptied:
+        res["emptied"] = emptied[0]       # compared with the model's decider `emptiesB` (field `emptied` of c11.render)
+    return res
 
 
 def _run_bad(case):
@@ -1234,8 +1247,12 @@ def _ans(a):
 def model_obs(case, answers):
     k = case["k"]
     if k == "msg":
-        return {"ansi": _ans(answers[0]), "plain": _ans(answers[1]), "removed": _ans(answers[1]),
-                "wf": _wf(case, answers[1])}
+        res = {"ansi": _ans(answers[0]), "plain": _ans(answers[1]), "removed": _ans(answers[1]),
+               "wf": _wf(case, answers[1])}
+        if case.get("sset") is not None and "emptied" in answers[1]:
+            # the decider of the hypothesis of style_set_emptied (Props.C11.empties_decides) on this style set
+            res["emptied"] = answers[1]["emptied"]
+        return res
     if k == "bad":
         return {"ansi": _ans(answers[0]), "plain": _ans(answers[1])}
     if k == "sgr":
